@@ -8,6 +8,7 @@ expression bodies into the checked-arithmetic `Outcome` monad (u64/u128 with
 theorems below are re-checked against what the code says now.
 -/
 import Rs1090.Gen.Time
+import Rs1090.Gen.HiddenState
 namespace Rs1090.Props.C18
 open Rs1090 Rs1090.Gen.Time
 
@@ -100,5 +101,17 @@ example : since_gps_week_to_since_today 5000000000 = .ok 86387000000000 := by de
 example : since_gps_week_to_since_today 0 = .ok 86382000000000 := by decide
 example : gps_week_in_s 1790000000 = .ok 1789862382 := by decide
 example : gps_week_in_s (2 ^ 64 - 1) = .ok 18446744073709180782 := by decide
+
+/-! ### hidden state (the code side of "is a function of its input") -/
+
+/-- **No hidden state besides the reviewed one** in the files this property is anchored in.  The two conversions are functions of their argument; the only `static` items of time.rs are two immutable integer constants (regenerated into `Gen.Time` and used by the model).
+    The translator lists on every run every construct through which a Rust function can carry state from one
+    call to the next without it showing in its signature (`static`, `thread_local!`, `lazy_static!`,
+    `OnceCell`/`OnceLock`/`Lazy`, `Cell`/`RefCell`/`UnsafeCell`, `Mutex`/`RwLock`, atomics, `unsafe`; whole
+    files, gen/extractors/hidden_state.py); a memo, cache or counter added there breaks this obligation by
+    name, whatever inputs the harness happens to generate. -/
+theorem hidden_state_reviewed :
+    Gen.HiddenState.sitesIn ["decode/time.rs"] =
+      [("decode/time.rs", "static GPS_TO_UNIX_OFFSET: u64 = 315964800;"), ("decode/time.rs", "static LEAP_SECONDS_SINCE_2017: u64 = 18;")] := by decide
 
 end Rs1090.Props.C18
